@@ -1,8 +1,8 @@
 package ipc
 
 import (
-	"go/token"
 	"fmt"
+	"go/token"
 	"go/types"
 	"strings"
 
